@@ -11,6 +11,9 @@ Proof. intros. assert (a * b <= (Bk - 1) * (Bk - 1)) by nia. assert (c * d <= (B
 Lemma R01 (B2 v R M : Z) : 0 < B2 -> 0 <= v < B2 -> 0 <= M < 2 * B2 -> v + B2 * R = M -> R = 0 \/ R = 1.
 Proof. intros. nia. Qed.
 
+Lemma nonneg4 Bk a b c d : 0 < Bk -> 0 <= a -> 0 <= b -> 0 <= c -> 0 <= d -> 0 <= a + Bk * b + Bk * Bk * (c + Bk * d).
+Proof. intros. assert (0 <= Bk * b) by nia. assert (0 <= c + Bk * d) by nia. nia. Qed.
+
 Lemma kara_step_ok k lm : lmul_ok k lm -> lmul_ok (S k) (lmul_kara_step k lm).
 Proof.
   intros Hlm [bl bh] [cl ch] [Hbl Hbh] [Hcl Hch].
@@ -65,7 +68,10 @@ Proof.
     - apply orb_false_iff in Eor. destruct Eor as [-> E0]. rewrite E0 in Hr. cbn [b2z] in *.
       exists y1, 0. split; [exact Wy1|]. split; [lia|]. split; [reflexivity|]. lia. }
   destruct Hfin as (hi & c2 & Whi & Rc2 & Hhi & Ehi).
-  destruct (rt6 || r); [destruct Hhi as [_ Hhi]|]; rewrite <- Hhi; clear Hhi; cbn [fst snd].
+  enough (Hg : wf (S k) (al0, alhi) /\ wf (S k) (ahlo, hi) /\
+               val (S k) (al0, alhi) + B (S k) * val (S k) (ahlo, hi) = val (S k) (bl, bh) * val (S k) (cl, ch)).
+  { destruct (rt6 || r); [destruct Hhi as [_ Hhi]|]; rewrite <- Hhi; exact Hg. }
+  clear Hhi. clearbody r. clearbody R.
   split; [split; assumption|]. split; [split; assumption|].
   rewrite (val_S k (bl, bh)), (val_S k (cl, ch)), (val_S k (al0, alhi)), (val_S k (ahlo, hi)). cbn [fst snd].
   pose proof (val_range _ _ Whi) as Rhi.
@@ -79,7 +85,6 @@ Proof.
   assert (HS : b2z c1 + c2 = 0).
   { apply (carry_0 (B k * B k) (val k al0 + B k * val k alhi + B k * B k * (val k ahlo + B k * val k hi)) _
              (val k bl + B k * val k bh) (val k cl + B k * val k ch) 0);
-      [nia | apply pair_range; lia | apply pair_range; lia | nia | | lia | exact Hid].
-    assert (0 <= val k ahlo + B k * val k hi) by nia. nia. }
+      [clear - HB; nia | apply pair_range; lia | apply pair_range; lia | clear - HB; nia | apply nonneg4; lia | lia | exact Hid]. }
   rewrite HS in Hid. rewrite B_S. lia.
 Qed.
